@@ -171,7 +171,8 @@ def eval(self, node):  # noqa: A001
                 parts.append(self.format_value(val, v.conversion, spec))
         if all(isinstance(p, str) for p in parts):
             return "".join(parts)
-        if any(isinstance(p, Sym) and p.ty == "int" for p in parts):
+        if any(isinstance(p, Sym) and p.ty == "int" for p in parts) and all(
+                isinstance(p, str) or (isinstance(p, Sym) and p.ty in ("int", "str")) for p in parts):
             from .prims import StrParts
             merged = []
             for p in parts:
@@ -1047,6 +1048,8 @@ def eval_comprehension(self, node):
 
 def do_getattr(self, obj, name):
     from .interp import ClassM, Prop, StaticM, TaskM
+    if type(obj).__name__ == "StrParts":
+        obj = Sym(self.to_z3(obj), "str")
     if name == "__class__" and not isinstance(obj, PObj) and type(obj).__name__ != "SuperProxy":
         return self.call(self.builtins["type"], [obj], {})
     if isinstance(obj, PObj):
